@@ -2,6 +2,7 @@ import GuppyVerif.Lemmas.C03Shape
 import GuppyVerif.Lemmas.C03Preds
 import GuppyVerif.Lemmas.C03Fuel
 import GuppyVerif.Lemmas.C03Wiring
+import GuppyVerif.Model.Scope
 /-! # C03 — Classical control and data flow behave as in Python
 
 Property theorems only.  Models: `Model/Surface.lean` (surface language + Python's semantics; unbounded
@@ -151,6 +152,26 @@ example : Wiring.deliver ⟨[], [[⟨"zz", true⟩, ⟨"q", false⟩, ⟨"a1", t
     some [[⟨"a1", true⟩, ⟨"zz", true⟩, ⟨"q", false⟩], [⟨"B", true⟩, ⟨"a1", true⟩, ⟨"q", false⟩]] := by decide
 example : Wiring.blockInputs false ⟨[⟨"a1", true⟩, ⟨"q", false⟩, ⟨"B", true⟩], []⟩ =
     [⟨"B", true⟩, ⟨"a1", true⟩, ⟨"q", false⟩] := by decide
+
+/-! ## Non-capturing nested functions: the recursive call of a nested function is the nested function
+    (`checker/func_checker.py: check_nested_func_def`, `checker/core.py: Globals.__getitem__`; model `Model/Scope.lean`) -/
+
+/-- **C03 `nested_recursion_resolves_to_itself`**: in the scope in which the body of a self-recursive, non-capturing
+    nested function `f` is checked, the name `f` resolves to the nested function — for all contents of the enclosing
+    frame's locals (the module namespace for module-level functions), globals and builtins, in particular when a
+    module-level function of the same name exists — and all other names resolve as in the enclosing function -/
+theorem nested_recursion_resolves_to_itself (g : Scope.Globals) (f : String) (id : Nat) :
+    Scope.lookup (Scope.bindNested g f id) f = .defn id ∧
+    ∀ x, x ≠ f → Scope.lookup (Scope.bindNested g f id) x = Scope.lookup g x :=
+  ⟨Scope.lookup_bindNested_self g f id, fun x h => Scope.lookup_bindNested_other g f x id h⟩
+
+/-- why the binding has to go into `f_locals`: bound in `f_globals`, a same-named definition `j` of the frame's locals
+    (module namespace) captures the recursive call (seeded change C03-m6; `shadowing_recursion(3)` = 105 instead of 6) -/
+theorem nested_binding_in_globals_is_shadowed (g : Scope.Globals) (f : String) (id j : Nat)
+    (h : Scope.get g.locals f = some (.defn j)) (hne : j ≠ id) :
+    Scope.lookup (Scope.bindNestedInGlobals g f id) f ≠ .defn id := by
+  rw [Scope.lookup_bindNestedInGlobals_shadowed g f id j h]
+  intro e; injection e with e; exact hne e
 
 /-! ## Non-vacuity: a program with a loop, `break`, `continue`, early return, unreachable tail, lifted
     expressions and calls satisfies all hypotheses, is accepted, and has a terminating Python run -/
